@@ -145,7 +145,7 @@ Qed.
 Fixpoint count_nat (j : nat) (s : list nat) : nat :=
   match s with [] => 0 | x :: r => (if Nat.eqb j x then 1 else 0) + count_nat j r end.
 
-Lemma group_one j l (s : list nat) :
+Lemma group_one (j l : nat) (s : list nat) :
   map snd (filter (fun p => Nat.eqb (fst p) j) (combine s (repeat l (length s)))) = repeat l (count_nat j s).
 Proof.
   induction s as [|x s IH]; simpl; [reflexivity|].
@@ -193,31 +193,38 @@ Lemma aligned_of_cols c sl first : cols_ok c sl ->
   aligned (cview c sl) first (out_of c first) = true.
 Proof.
   intros H Hmin Hmax. pose proof H as (H1 & H2 & H3 & H4 & H5 & H6).
-  unfold aligned, out_of; simpl.
   assert (Hsplit : split_by (c_tid c) (c_tix c) = sl) by (rewrite H3, H4; apply split_by_concat).
-  repeat (apply andb_true_iff; split).
-  - unfold shape_ok. repeat (apply andb_true_iff; split).
-    + apply Nat.eqb_eq; assumption.
-    + apply Nat.eqb_eq. rewrite H3, map_length. assumption.
-    + apply Nat.eqb_eq. rewrite H3, H4. clear. induction sl; simpl; [reflexivity|].
-      rewrite app_length, IHsl. reflexivity.
-    + rewrite H4. apply forallb_forall. intros j Hj. apply Nat.ltb_lt.
+  assert (A1 : shape_ok (c_ids c) (c_pos c) (c_tid c) (c_tix c) (c_tvals c) = true).
+  { unfold shape_ok.
+    assert (E1 : Nat.eqb (length (c_pos c)) (length (c_ids c)) = true) by (apply Nat.eqb_eq; assumption).
+    assert (E2 : Nat.eqb (length (c_tid c)) (length (c_ids c)) = true)
+      by (apply Nat.eqb_eq; rewrite H3, map_length; assumption).
+    assert (E3 : Nat.eqb (fold_right Nat.add 0 (c_tid c)) (length (c_tix c)) = true).
+    { apply Nat.eqb_eq. rewrite H3, H4. clear. induction sl; simpl; [reflexivity|].
+      rewrite app_length, IHsl. reflexivity. }
+    assert (E4 : forallb (fun j => Nat.ltb j (length (c_tvals c))) (c_tix c) = true).
+    { rewrite H4. apply forallb_forall. intros j Hj. apply Nat.ltb_lt.
       apply in_concat in Hj. destruct Hj as (s & Hs & Hj).
       unfold in_range in H6. rewrite Forall_forall in H6. specialize (H6 s Hs).
-      rewrite Forall_forall in H6. apply H6; assumption.
-  - unfold view_of. rewrite Hsplit. apply list_eqb_refl, dview_eqb_refl.
-  - apply Nat.eqb_eq. unfold group_lids. rewrite map_length, seq_length. reflexivity.
-  - apply forallb_forall. intros [t g] Hin. simpl.
+      rewrite Forall_forall in H6. apply H6; assumption. }
+    rewrite E1, E2, E3, E4. reflexivity. }
+  assert (A2 : list_eqb dview_eqb (view_of (c_ids c) (c_pos c) (c_tid c) (c_tix c) (c_tvals c)) (cview c sl) = true).
+  { unfold view_of. rewrite Hsplit. apply list_eqb_refl, dview_eqb_refl. }
+  assert (A3 : Nat.eqb (length (group_lids c (seq first (length (c_ids c))))) (length (c_tvals c)) = true).
+  { apply Nat.eqb_eq. unfold group_lids. rewrite map_length, seq_length. reflexivity. }
+  assert (A4 : forallb (fun p => nat_list_eqb (snd p) (expected_group (fst p) first (cview c sl)))
+                       (combine (c_tvals c) (group_lids c (seq first (length (c_ids c))))) = true).
+  { apply forallb_forall. intros [t g] Hin. simpl.
     unfold group_lids in Hin.
     rewrite <- (map_nth_seq (c_tvals c) 0%N) in Hin at 1.
     rewrite combine_map_same in Hin. apply in_map_iff in Hin.
     destruct Hin as (j & E & Hj). inversion E; subst t g. apply in_seq in Hj.
     rewrite H3, H4.
     replace (length (c_ids c)) with (length sl) by assumption.
-    rewrite (groups_of_cols (c_tvals c) j H5 ltac:(lia) sl (c_ids c) (c_pos c) first H6) by lia.
-    apply nat_list_eqb_refl.
-  - apply N.eqb_eq; assumption.
-  - apply N.eqb_eq; assumption.
+    rewrite (groups_of_cols (c_tvals c) j H5 ltac:(lia) sl (c_ids c) (c_pos c) first H6)
+      by (try (symmetry; assumption); congruence).
+    apply nat_list_eqb_refl. }
+  unfold aligned, out_of; simpl. rewrite A1, A2, A3, A4, Hmin, Hmax, !N.eqb_refl. reflexivity.
 Qed.
 
 (* ------------------------------------------------------------------ what AppendMeta builds *)
@@ -243,7 +250,7 @@ Proof.
   intros H. apply map_ext_in. intros j Hj. rewrite Forall_forall in H. unfold tvf. apply app_nth1, H, Hj.
 Qed.
 
-Lemma range_app tv ext (s : list nat) :
+Lemma range_app (tv ext : list N) (s : list nat) :
   Forall (fun j => j < length tv) s -> Forall (fun j => j < length (tv ++ ext)) s.
 Proof. intros H. eapply Forall_impl; [|exact H]. simpl. intros; rewrite app_length; lia. Qed.
 
@@ -277,3 +284,129 @@ Proof.
       * f_equal; [|assumption]. unfold tvf. rewrite app_nth2 by lia. rewrite Nat.sub_diag. reflexivity.
       * constructor; [rewrite app_length; simpl; lia|assumption].
 Qed.
+
+Lemma map_fst_combine {A B} (a : list A) : forall (b : list B), length a = length b -> map fst (combine a b) = a.
+Proof. induction a; intros [|y b] H; simpl in *; try discriminate; [reflexivity|]. rewrite IHa by lia. reflexivity. Qed.
+
+Lemma map_fstfst_combine {A B C} (a : list A) : forall (b : list B) (c : list C),
+  length a = length b -> length a = length c ->
+  map (fun v : A * B * C => fst (fst v)) (combine (combine a b) c) = a.
+Proof.
+  induction a; intros [|y b] [|z c] H1 H2; simpl in *; try discriminate; [reflexivity|].
+  rewrite IHa by lia. reflexivity.
+Qed.
+
+Lemma cview_ids c sl : cols_ok c sl -> map (fun v : dview => fst (fst v)) (cview c sl) = c_ids c.
+Proof.
+  intros (H1 & H2 & _). unfold cview. apply map_fstfst_combine.
+  - symmetry; exact H1.
+  - rewrite map_length. symmetry; exact H2.
+Qed.
+
+Lemma min_mid_ids (l : list dview) :
+  min_mid l = fold_left (fun a (i : id) => N.min a (fst i)) (map (fun v : dview => fst (fst v)) l) max_u64.
+Proof. unfold min_mid. rewrite fold_left_map_gen. reflexivity. Qed.
+Lemma max_mid_ids (l : list dview) :
+  max_mid l = fold_left (fun a (i : id) => N.max a (fst i)) (map (fun v : dview => fst (fst v)) l) 0%N.
+Proof. unfold max_mid. rewrite fold_left_map_gen. reflexivity. Qed.
+
+Definition meta_pos (c : coll) (m : meta) : pos :=
+  if N.eqb (m_size m) 0 then last (c_pos c) (c_blk c, 0%N) else (c_blk c, c_next c).
+
+Lemma append_meta_cols c sl0 m : cols_ok c sl0 ->
+  exists s, cols_ok (append_meta c m) (sl0 ++ [s]) /\
+            cview (append_meta c m) (sl0 ++ [s]) = cview c sl0 ++ [(m_id m, meta_pos c m, m_toks m)].
+Proof.
+  intros (H1 & H2 & H3 & H4 & H5 & H6).
+  destruct (extract_spec (m_toks m) (c_tvals c) (c_tix c) H5) as (ext & s & E & ND & M & R).
+  exists s. unfold append_meta. rewrite E. cbv zeta. unfold cols_ok, cview. simpl.
+  assert (Hls : length s = length (m_toks m)) by (rewrite <- M, map_length; reflexivity).
+  split.
+  - rewrite !app_length. simpl. repeat split; auto; try lia.
+    + rewrite map_app, H3. simpl. rewrite Hls. reflexivity.
+    + rewrite concat_app, H4. simpl. rewrite app_nil_r. reflexivity.
+    + unfold in_range. apply Forall_app. split.
+      * eapply Forall_impl; [|exact H6]. intros a Ha. apply range_app, Ha.
+      * constructor; [assumption|constructor].
+  - rewrite map_app. simpl.
+    rewrite (combine_app_eq (c_ids c)) by (symmetry; exact H1).
+    rewrite combine_app_eq.
+    2:{ rewrite combine_length, map_length. rewrite H1, H2. apply Nat.min_id. }
+    simpl. rewrite M. unfold meta_pos. f_equal.
+    f_equal. apply map_ext_in. intros a Ha. apply tvf_app1.
+    unfold in_range in H6. rewrite Forall_forall in H6. apply H6, Ha.
+Qed.
+
+Lemma append_meta_next_pos c m :
+  c_blk (append_meta c m) = c_blk c /\
+  last (c_pos (append_meta c m)) (c_blk c, 0%N) = meta_pos c m /\
+  c_next (append_meta c m) = (if N.eqb (m_size m) 0 then c_next c else c_next c + m_size m + 4)%N.
+Proof.
+  unfold append_meta, meta_pos. cbv zeta. simpl. rewrite last_last. auto.
+Qed.
+
+Lemma collect_gen ms : forall c sl0, cols_ok c sl0 ->
+  exists sl, cols_ok (fold_left append_meta ms c) (sl0 ++ sl) /\
+    cview (fold_left append_meta ms c) (sl0 ++ sl)
+    = cview c sl0 ++ sent_view_from (c_blk c) (c_next c) (last (c_pos c) (c_blk c, 0%N)) ms.
+Proof.
+  induction ms as [|m ms IH]; intros c sl0 H; simpl.
+  - exists []. rewrite !app_nil_r. auto.
+  - destruct (append_meta_cols c sl0 m H) as (s & H1 & V1).
+    destruct (IH _ _ H1) as (sl & H2 & V2).
+    exists (s :: sl). replace (sl0 ++ s :: sl) with ((sl0 ++ [s]) ++ sl) by (rewrite <- app_assoc; reflexivity).
+    split; [assumption|]. rewrite V2, V1, <- app_assoc. f_equal.
+    destruct (append_meta_next_pos c m) as (B & L & Nx). rewrite B, L, Nx. unfold meta_pos.
+    cbn [app sent_view_from].
+    destruct (N.eqb (m_size m) 0); reflexivity.
+Qed.
+
+Lemma collect_minmax ms : forall c,
+  c_min (fold_left append_meta ms c) = fold_left (fun a (i : id) => N.min a (fst i)) (map m_id ms) (c_min c) /\
+  c_max (fold_left append_meta ms c) = fold_left (fun a (i : id) => N.max a (fst i)) (map m_id ms) (c_max c).
+Proof.
+  induction ms as [|m ms IH]; intros c; simpl; [auto|].
+  destruct (IH (append_meta c m)) as [A B]. rewrite A, B. unfold append_meta. cbv zeta. simpl. auto.
+Qed.
+
+Lemma cols_init blk : cols_ok (coll_init blk) [].
+Proof. unfold cols_ok, coll_init, in_range. simpl. repeat split; auto. constructor. Qed.
+
+Lemma sent_view_ids blk ms : forall o prev,
+  map (fun v : dview => fst (fst v)) (sent_view_from blk o prev ms) = map m_id ms.
+Proof.
+  induction ms as [|m ms IH]; intros o prev; simpl; [reflexivity|].
+  destruct (N.eqb (m_size m) 0); simpl; rewrite IH; reflexivity.
+Qed.
+
+Lemma collect_cols blk ms :
+  exists sl, cols_ok (collect blk ms) sl /\ cview (collect blk ms) sl = sent_view blk ms /\
+             c_min (collect blk ms) = min_mid (sent_view blk ms) /\
+             c_max (collect blk ms) = max_mid (sent_view blk ms).
+Proof.
+  destruct (collect_gen ms (coll_init blk) [] (cols_init blk)) as (sl & H & V).
+  destruct (collect_minmax ms (coll_init blk)) as [A B].
+  exists sl. unfold collect. split; [exact H|]. split; [exact V|].
+  rewrite A, B, min_mid_ids, max_mid_ids. unfold sent_view. rewrite sent_view_ids. split; reflexivity.
+Qed.
+
+(* thm:C17_filter_alignment *)
+Lemma filter_alignment blk ms dofilter app first :
+  aligned (kept_view dofilter app (sent_view blk ms)) first
+          (out_of (model_coll blk ms dofilter app) first) = true.
+Proof.
+  destruct (collect_cols blk ms) as (sl & H & V & Hmin & Hmax).
+  unfold model_coll, kept_view. destruct dofilter.
+  - destruct (filter_cols _ sl app H) as [H' V']. rewrite <- V, <- V'.
+    apply aligned_of_cols; [assumption| |].
+    + rewrite min_mid_ids, (cview_ids _ _ H'). reflexivity.
+    + rewrite max_mid_ids, (cview_ids _ _ H'). reflexivity.
+  - rewrite <- V. apply aligned_of_cols; [assumption| |]; rewrite V; assumption.
+Qed.
+
+(* the stats count what was kept, when [app] is what SetMultiple returns for the kept metas *)
+Lemma filter_docs_count blk ms app :
+  length app = length (filter (fun v : dview => mem_id (fst (fst v)) app) (sent_view blk ms)) ->
+  c_docs (filter_coll (collect blk ms) app)
+  = N.of_nat (length (filter (fun v : dview => mem_id (fst (fst v)) app) (sent_view blk ms))).
+Proof. intros H. simpl. rewrite H. reflexivity. Qed.
